@@ -49,6 +49,7 @@ def main(inp, outp):
 
     traces = []
     laws = {"checked": 0, "failed": 0, "worst_cm": 0.0, "examples": []}
+    laws2 = {"checked": 0, "failed": 0, "examples": []}
     older = None      # (native propagator, its TLE lines) initialised for an earlier catalogue entry and still alive
     for case in job["cases"]:
         text = case["l1"] + "\n" + case["l2"]
@@ -68,6 +69,27 @@ def main(inp, outp):
             except Exception as e:
                 items.append({"ev": "call", "error": f"{type(e).__name__}: {e}", "inst": [0, 0, 0], "tuple": [], "out": [], "ret": [], "retdate": []})
                 continue
+            # the property's first sentence, directly: the state returned is the reference library's state for THIS text at this
+            # instant (model built here, from the lines, outside the wrapper), within the library's time resolution
+            try:
+                from sgp4.propagation import sgp4 as _ref_model
+                _sat = real_twoline2rv(case["l1"], case["l2"], wrapper_mod.wgs72)
+                # time since epoch as the reference theory counts it: difference of UTC calendar readings (a leap second between
+                # the epoch and the date is not elapsed time for SGP4)
+                _u, _e = date.change_scale("UTC"), orb.date.change_scale("UTC")
+                _ts = ((_u.d - _e.d) * 86400.0 + (_u.s - _e.s)) / 60.0
+                _rp, _rv = _ref_model(_sat, _ts)
+                if not _sat.error and np.all(np.isfinite(np.asarray(_rp, float))):
+                    _got = np.asarray(res, float)
+                    _dp = float(np.linalg.norm(_got[:3] - np.asarray(_rp, float) * 1000.0))
+                    _vm = float(np.linalg.norm(np.asarray(_rv, float) * 1000.0))
+                    laws2["checked"] += 1
+                    if _dp > _vm * 5e-5 + 1e-3:
+                        laws2["failed"] += 1
+                        if len(laws2["examples"]) < 4:
+                            laws2["examples"].append({"tle": text, "offset_s": off_s, "label": label, "difference_m": _dp, "allowed_m": _vm * 5e-5 + 1e-3})
+            except Exception:
+                pass
             for ev in log:
                 if ev["ev"] == "init":
                     items.append({"ev": "init", "l1": ev["l1"], "l2": ev["l2"], "want1": case["l1"], "want2": case["l2"]})
@@ -142,7 +164,7 @@ def main(inp, outp):
                         laws["examples"].append({"tle": text, "offset_s": off_s, "error": f"{type(e).__name__}: {e}"})
         traces.append({"id": case["id"], "items": items})
     with open(outp, "w") as fh:
-        json.dump({"traces": traces, "laws": laws}, fh)
+        json.dump({"traces": traces, "laws": laws, "laws2": laws2}, fh)
 
 
 if __name__ == "__main__":
